@@ -87,6 +87,8 @@ def build(history, variant):
             elif s[0] == "g":
                 g = {"plain": blocks.g_plain, "fn": blocks.g_fn, "uniq": blocks.g_uniq}[variant]
                 acc = jnp.concatenate([g(acc[:, :2], acc[:, :2] * s[1]), acc[:, 2:]], axis=1) if half else g(acc, acc * s[1])
+            elif s[0] == "outer2":
+                acc = {"plain": blocks.outer2_plain, "fn": blocks.outer2_fn, "uniq": blocks.outer2_uniq}[variant](acc)
             else:
                 acc = {"plain": blocks.outer_plain, "fn": blocks.outer_fn, "uniq": blocks.outer_uniq}[variant](acc)
         return acc
@@ -160,7 +162,7 @@ def check_history(history, variant, sym, acc=None):
     elif acc:
         acc.tally("status", "call_count_differs_from_history(no_sharing_check)")
     # non-trivial: two sites of one type differing in exactly one field, or a nested function
-    nt = any(s[0] == "outer" for s in history)
+    nt = any(s[0] in ("outer", "outer2") for s in history)
     for i in range(len(history)):
         for j in range(i + 1, len(history)):
             a, b = history[i], history[j]
